@@ -1,9 +1,11 @@
 """Re-execute a stored violation (out/violations/*.json) against the current tree
-and let TLC judge it again; prints the failing clauses and the observation."""
+(or DYNETX_ROOT) and let TLC judge it again: the job that produced the failing
+trace (driver function + its arguments, stored in the file) is run once more."""
+import importlib
 import json
 import sys
 
-from . import drivers, tlc
+from . import tlc
 
 
 def main():
@@ -12,24 +14,37 @@ def main():
         print(open(path).read()[-6000:])
         return 1
     rec = json.load(open(path))
-    if rec.get("kind") == "generic":
-        from . import replay_generic
-        return replay_generic.replay(rec)
-    tr = rec["trace"]
-    head = tr[0]
-    calls = [c for c in tr[1:] if not c.get("fork")]
-    forks = [c for c in tr[1:] if c.get("fork")][-1:]
-    strip = lambda c: {k: v for k, v in c.items() if k not in ("fork", "res", "form", "obs")}
-    lines = drivers.make_trace(head["dir"], head["rem"], [strip(c) for c in calls], labeling=head.get("lab", "int"),
-                               forks=[strip(c) for c in forks])
-    v = tlc.validate([lines], "replay", shards=1)[0]
-    print("calls:")
-    for ln in lines:
-        print("  ", {k: v_ for k, v_ in ln.items() if k != "obs"})
-    print("failing clauses now:", v["fails"])
+    meta = rec.get("meta")
+    if not meta:
+        # traces that did not come from a driver job (repository tests under the tracer, simulation): re-apply the calls
+        from . import drivers
+        tr = rec["trace"]
+        head = tr[0]
+        strip = lambda c: {k: v for k, v in c.items() if k not in ("fork", "res", "form", "obs", "test")}
+        calls = [strip(c) for c in tr[1:] if not c.get("fork") and c["op"] in drivers.FORMS]
+        forks = [strip(c) for c in tr[1:] if c.get("fork") and c["op"] in drivers.FORMS][-1:]
+        lines = drivers.make_trace(head["dir"], head["rem"], calls, labeling="int", forks=forks)
+        v = tlc.validate([lines], "replay", shards=1)[0]
+        for ln in lines:
+            print("  ", json.dumps({k: v_ for k, v_ in ln.items() if k != "obs"})[:300])
+        print("stored failing clause:", rec["clause"], "at line", rec["line"])
+        print("failing clauses now:", [f for f in v["fails"] if f[2] == "fail"])
+        return 1 if any(f[1] == rec["clause"] and f[2] == "fail" for f in v["fails"]) else 0
+    mod, _, name = meta["fn"].rpartition(".")
+    fn = getattr(importlib.import_module(mod), name)
+    job = meta["job"]
+    r = fn(tuple(job) if isinstance(job, list) else job)
+    trace = r[meta["index"]] if meta["index"] is not None else r
+    if meta["index"] is not None and not (r and isinstance(r[0], list)):
+        trace = r
+    v = tlc.validate([trace], "replay", shards=1)[0]
+    print("job:", meta["fn"])
+    for ln in trace:
+        print("  ", json.dumps({k: v_ for k, v_ in ln.items() if k not in ("obs", "cobs", "src", "src2", "q", "qs", "es", "ss")})[:400])
     print("stored failing clause:", rec["clause"], "at line", rec["line"])
-    print("observation at the last line:", json.dumps(lines[-1]["obs"])[:3000])
-    return 1 if any(f[1] == rec["clause"] for f in v["fails"]) else 0
+    print("failing clauses now:", [f for f in v["fails"] if f[2] == "fail"])
+    print("explained by known findings now:", sorted({(f[1], f[2]) for f in v["fails"] if f[2] != "fail"}))
+    return 1 if any(f[1] == rec["clause"] and f[2] == "fail" for f in v["fails"]) else 0
 
 
 if __name__ == "__main__":
